@@ -31,7 +31,7 @@ m = {
     "engines": [{
         "name": "coq-proof+correspondence", "path": "check",
         "serves_properties": [c["property_id"] for c in checks],
-        "kind_free_text": "Coq 8.16.1 theorems about an executable Gallina model; model tied to /repo by a kernel translator (tools/py2v.py) and by a differential correspondence harness driving the extracted model and the real implementation"}],
+        "kind_free_text": "Coq 8.16.1 theorems about an executable Gallina model; model tied to /repo by two fail-closed source-to-Gallina translators (tools/py2v.py: integer kernels of connection.py; tools/py2v_bytes.py: byte kernels of serializable.py, http_server.py, connection.py) and by a differential correspondence harness driving the extracted model and the real implementation"}],
     "checks": checks,
     "notes": "All checks go through ./check <id>; evidence is rewritten on every run; known_findings.json is never written at run time.",
     "not_applicable": na,
